@@ -192,7 +192,12 @@ inline Verdict expect_C07(const WSnap& pre, const CallInfo& ci) {
         if (used != 0 && f.pts.size() != (size_t)used) { v.classes.insert(RUNTIME_ERROR); v.why += "point count != POINT:USED; "; }
         for (auto& l : labels) if (!has(names, l)) { v.classes.insert(INVALID_ARGUMENT); v.why += "label missing; "; break; }
         if (!f.pts.empty() && prate == 0.0f) { v.classes.insert(RUNTIME_ERROR); v.why += "points while POINT:RATE==0; "; }
-        if (!f.subs.empty() && arate == 0.0f) { v.classes.insert(RUNTIME_ERROR); v.why += "analogs while ANALOG:RATE==0; "; }
+        // an object loaded from a file whose ANALOG group holds no parameter (Optotrak layout) declares nothing about analogs: the analog clauses are
+        // undefined for a frame that brings samples (don't care); sub-frames without any channel carry no sample
+        const GSnap* ag = o.group("ANALOG"); bool analogDeclared = ag && ag->find("USED") && ag->find("RATE");
+        bool noSamples = true; for (auto& sb : f.subs) if (!sb.empty()) noSamples = false;
+        if (!analogDeclared && !noSamples) { if (!v.classes.empty()) v.t = Verdict::MUST_REFUSE; return v; }
+        if (!noSamples && arate == 0.0f) { v.classes.insert(RUNTIME_ERROR); v.why += "analogs while ANALOG:RATE==0; "; }
         if (aused != 0 && !f.subs.empty() && f.subs[0].size() != (size_t)aused) { v.classes.insert(RUNTIME_ERROR); v.why += "channel count != ANALOG:USED; "; }
         if (!v.classes.empty()) { v.t = Verdict::MUST_REFUSE; return v; }
         // conforming?
@@ -200,7 +205,7 @@ inline Verdict expect_C07(const WSnap& pre, const CallInfo& ci) {
         bool uniform = true; for (auto& s : f.subs) if (s.size() != f.subs[0].size()) uniform = false;
         bool anOk;
         if (aused > 0) anOk = uniform && f.subs.size() == o.h.subPerFrame && o.h.subPerFrame >= 1 && chNames(f) == alabels && alabels.size() == (size_t)aused;
-        else anOk = f.subs.empty() && alabels.empty();
+        else anOk = alabels.empty() && (f.subs.empty() || (noSamples && (arate != 0.0f || !analogDeclared)));   // sub-frames without channels == no analogs (accepted by the library unless a declared ANALOG:RATE is 0)
         bool any = !f.pts.empty() || !f.subs.empty();
         if (ptsOk && anOk && any && (used > 0 || aused > 0)) { v.t = Verdict::MUST_ACCEPT; v.why = "frame matches declared names, counts, rates and sub-frame ratio"; }
         return v;
@@ -218,6 +223,7 @@ inline Verdict expect_C07(const WSnap& pre, const CallInfo& ci) {
         if (n > 0 && same && fresh && distinct(ptNames(fr[0]))) { v.t = Verdict::MUST_ACCEPT; v.why = "conforming point column"; }
         return v;
     }
+    if ((ci.kind == K_COL_ANALOG || ci.kind == K_ANALOG_NAME) && !(o.group("ANALOG") && o.group("ANALOG")->find("USED") && o.group("ANALOG")->find("LABELS"))) return v;   // nothing about analogs is declared (empty ANALOG group): outside the statement
     if (ci.kind == K_COL_ANALOG) {
         const auto& fr = ci.givenFrames; size_t spf = o.h.subPerFrame;
         size_t storedSub = 0; bool storedUniform = true; if (n) { storedSub = o.frames[0].subs.size(); for (auto& f : o.frames) if (f.subs.size() != storedSub) storedUniform = false; }
